@@ -1,4 +1,5 @@
 import Bclv.Proofs.DumpLoad
+import Bclv.Proofs.Bufio
 import Bclv.Model.Vm
 /-!
 # C09 — bytecode dump and load round trip preserves the program
@@ -6,9 +7,12 @@ import Bclv.Model.Vm
 Stated for every program whose lengths and offsets fit in 64 bits (`Prog.WF`), for
 all constant kinds, every string length (all varint size classes are cases of
 `uvDec_uvEnc`, which holds for every `x < 2^64`), every float bit pattern.
-Independence from how the reader hands the bytes over is *not* proved here: `load`
-is defined on the concatenation of the reads; the read-partition stream of the
-harness checks the implementation against it.
+`load` is defined on the concatenation of the reads; `loadR` (`Model/Bufio.lean`) is `Load`
+written over the 4096-byte buffered reader, call by call as in the Go code, fed by a source
+that delivers the input in pieces.  `however_the_reader_hands_over` proves the two equal for
+every way of cutting the input into non-empty pieces (all at once, one byte per read,
+anything between); the read-partition cases of the `dumpload` stream compare `loadR` with
+the implementation piece list by piece list.
 -/
 namespace Bclv.C09
 open Bclv
@@ -35,6 +39,26 @@ behaves identically: same output, blocks, binding, warnings, error and statistic
 theorem exec_disasm_load_dump (p : Prog) (h : p.WF) (trace : Bool) (fuel : Nat) :
     ∃ q, load (dump p) = .ok q ∧ execute q trace fuel = execute p trace fuel ∧ disasm q = disasm p :=
   ⟨p, load_dump p h, rfl, rfl⟩
+
+/-- **However the reader hands over the bytes**: `Load` through the buffered reader, from a
+source that delivers any non-empty pieces, is `load` of their concatenation. -/
+theorem however_the_reader_hands_over (chunks : List Bytes) (h : ∀ c ∈ chunks, c ≠ []) :
+    loadR chunks = load chunks.flatten := loadR_eq_load chunks h
+
+/-- The round trip through a reader that delivers the dump in pieces. -/
+theorem load_dump_chunked (p : Prog) (h : p.WF) (chunks : List Bytes) (hc : ∀ c ∈ chunks, c ≠ [])
+    (hcat : chunks.flatten = dump p) : loadR chunks = .ok p := by
+  rw [loadR_eq_load chunks hc, hcat]; exact load_dump p h
+
+/-- One byte per read. -/
+theorem load_dump_one_byte_reads (p : Prog) (h : p.WF) : loadR ((dump p).map fun b => [b]) = .ok p := by
+  apply load_dump_chunked p h
+  · intro c hc
+    obtain ⟨b, _, rfl⟩ := List.mem_map.mp hc
+    simp
+  · induction dump p with
+    | nil => rfl
+    | cons b bs ih => simp [ih]
 
 /-- The unsigned varint round trip for every 64-bit value, in particular across the
 size classes 240/241, 2287/2288, 67823/67824, 2^24, 2^32, … -/
@@ -73,5 +97,10 @@ example : sample.WF := by
   · intro x hx
     simp only [sample, List.mem_cons, List.mem_nil_iff, or_false] at hx
     omega
+
+/-- Non-vacuity of the piecewise statements: the 346-byte sample dump read in pieces of 1, 2,
+300 and the rest (cuts inside the header, inside a varint and inside the long string). -/
+example : (match loadR [(dump sample).take 1, ((dump sample).drop 1).take 2, ((dump sample).drop 3).take 300,
+    (dump sample).drop 303] with | .ok p => decide (p = sample) | _ => false) = true := by decide +kernel
 
 end Bclv.C09
